@@ -130,7 +130,11 @@ def metric_vs_displacements(d, tol=0.12):
         ey = np.stack([(R["ylow"][:, 1:] - R["ylow"][:, :-1]) / dy, (Z["ylow"][:, 1:] - Z["ylow"][:, :-1]) / dy])
         mask = _interior_mask(r, dx.shape, "centre")
         g11m, g12m, g22m = (ex * ex).sum(0), (ex * ey).sum(0), (ey * ey).sum(0)
-        for nm, meas, code in (("g_11", g11m, m["g_11"]["centre"]), ("hy^2 (poloidal part of g_22)", g22m, m["hy"]["centre"] ** 2)):
+        # poloidal cell length measured through the cell centre (two half chords): the
+        # chord-vs-arc error of a coarse, curved cell is a quarter of that of the single chord
+        half = np.sqrt((R["centre"] - R["ylow"][:, :-1]) ** 2 + (Z["centre"] - Z["ylow"][:, :-1]) ** 2) + np.sqrt((R["ylow"][:, 1:] - R["centre"]) ** 2 + (Z["ylow"][:, 1:] - Z["centre"]) ** 2)
+        hy2m = (half / dy) ** 2
+        for nm, meas, code in (("g_11", g11m, m["g_11"]["centre"]), ("hy^2 (poloidal part of g_22)", hy2m, m["hy"]["centre"] ** 2)):
             # chord vs arc: the measured chord is shorter than the arc by a curvature term,
             # second order in the (coarse) cell size
             err = np.abs(code / meas - 1.0) * (0.5 if nm.startswith("hy") else 1.0)
